@@ -19,7 +19,7 @@ FIO_PROPS = ['IndexStable', 'NoSilentOverwrite', 'HeaderStable']
 
 def fio_consts(H, R, maxadd, maxcrash, maxinit, hist, mode=None):
     return dict(H=str(H), R=str(R), MAXADD=str(maxadd), MAXCRASH=str(maxcrash), MAXINIT=str(maxinit),
-                MODE=f'"{mode or MODE}"', HIST='TRUE' if hist else 'FALSE', MAXHIST='18')
+                MODE=f'"{mode or MODE}"', HIST='TRUE' if hist else 'FALSE', MAXHIST='18', NHANDLES='2')
 
 
 def fio_mc(wd, H, R, maxadd, maxcrash, maxinit, mode=None):
